@@ -43,6 +43,8 @@ func NewRPCError(oErr OrdaError) error {
 		c = codes.Internal
 	case ServerBadRequest:
 		c = codes.InvalidArgument
+	default:
+		c = codes.Internal // never codes.OK: status.Error(codes.OK, ...) is a nil error
 	}
 	return status.Error(c, oErr.Error())
 }
